@@ -63,16 +63,162 @@ def mkcase(cid, text, files=(), origin="generated", second=None, kind="", pretex
     return E.Case(cid, lines, {"origin": origin, "kind": kind})
 
 
+IDMAP = {"type_of_locals_ptr": "tOff", "locals_ptr": "lOff", "runtime_locals_ptr": "lOff",
+         "max_num_locals": "max", "current_number_of_locals": "cur", "num_local_variables_allowed": "N",
+         "type_of_locals": "0", "locals": "0", "runtime_locals": "0", "type_of_locals_size": "tsize", "locals_size": "lsize"}
+OPMAP = {"+": "+", ">=": "≥", ">": ">", "<=": "≤", "<": "<", "==": "=", "(": "(", ")": ")"}
+
+
+def c2lean(expr, site, idmap=IDMAP):
+    """translate a C comparison over the locals-table cursors into a Lean Prop over offsets"""
+    e = re.sub(r"/\*.*?\*/", " ", expr, flags=re.S)
+    e = re.sub(r"\(\s*(?:size_t|int|long|ptrdiff_t|unsigned|unsigned\s+int)\s*\)", " ", e)      # casts
+    e = re.sub(r"&\s*(\w+)\s*\[\s*(\w+)\s*\]", r"(\1 + \2)", e)                              # &a[n] = a + n
+    toks = re.findall(r"[A-Za-z_]\w*|\d+|>=|<=|==|[-+<>()]|\S", e)
+    out = []
+    for t in toks:
+        if t in idmap:
+            out.append(idmap[t])
+        elif t in OPMAP:
+            out.append(OPMAP[t])
+        elif t.isdigit():
+            out.append(t)
+        else:
+            raise X.TieBroken(site, "cannot translate `%s` (token `%s`)" % (" ".join(expr.split()), t))
+    return " ".join(out)
+
+
+
+def gen_grammar(repo):
+    fn_body = C02.fn_body
+    gy = open(os.path.join(repo, "lib/lpc/grammar.y"), errors="replace").read()
+    cc = open(os.path.join(repo, "lib/lpc/compiler.c"), errors="replace").read()
+    out = []
+    site = "grammar.y:function literal start action"
+    m = re.search(r"\$<func_block>\$\.num_local\s*=.*?push_function_context\s*\(\s*\)\s*;", gy, re.S)
+    if not m:
+        raise X.TieBroken(site, "cannot locate the action")
+    act = re.sub(r"#ifdef NEOLITH_VERIF.*?#endif", "", m.group(0), flags=re.S)
+    t = re.search(r"if\s*\(((?:[^()]|\([^()]*\))*)\)\s*reallocate_locals\s*\(\s*\)\s*;", act, re.S)
+    if not t:
+        raise X.TieBroken(site + " realloc test", "`if (...) reallocate_locals ();` not found")
+    out.append("/-- source: %s: `if (%s) reallocate_locals ()` -/\ndef reallocTest (tOff lOff cur max N tsize lsize : Nat) : Bool :=\n  decide (%s)"
+               % (site, " ".join(t.group(1).split()), c2lean(t.group(1), site + " realloc test")))
+
+    def adv(name, ptr):
+        mm = re.search(r"\b%s\s*\+=\s*(\w+)\s*;" % ptr, act)
+        if not mm or mm.group(1) not in ("current_number_of_locals", "max_num_locals"):
+            raise X.TieBroken(site + " " + ptr, "`%s += <counter>;` not found" % ptr)
+        out.append("/-- source: %s: `%s += %s` -/\ndef %s (cur max : Nat) : Nat := %s" % (site, ptr, mm.group(1), name, IDMAP[mm.group(1)]))
+        return mm.start()
+    a1 = adv("enterNameAdv", "locals_ptr")
+    a2 = adv("enterTypeAdv", "type_of_locals_ptr")
+    a3 = adv("enterRtAdv", "runtime_locals_ptr")
+    pos = [t.start(), act.find(".locals_off"), act.find(".type_off"), act.find("deactivate_current_locals"), min(a1, a2, a3),
+           re.search(r"max_num_locals\s*=\s*current_number_of_locals\s*=\s*0\s*;", act).start() if re.search(r"max_num_locals\s*=\s*current_number_of_locals\s*=\s*0\s*;", act) else -1]
+    s1 = re.search(r"\.num_local\s*=\s*\((?:char|short|int)\)\s*current_number_of_locals\s*;", act)
+    s2 = re.search(r"\.max_num_locals\s*=\s*\((?:char|short|int)\)\s*max_num_locals\s*;", act)
+    s3 = re.search(r"\.locals_off\s*=\s*\(int\)\s*\(\s*locals_ptr\s*-\s*locals\s*\)\s*;", act)
+    s4 = re.search(r"\.type_off\s*=\s*\(int\)\s*\(\s*type_of_locals_ptr\s*-\s*type_of_locals\s*\)\s*;", act)
+    ok = all(p >= 0 for p in pos) and pos == sorted(pos) and all((s1, s2, s3, s4)) and max(s1.start(), s2.start()) < pos[0]
+    out.append("/-- source: %s: saves (num_local, max_num_locals), realloc test, saves the offsets, deactivates, moves the three "
+               "pointers, clears the counters - in this order -/\ndef enterOrderOk : Bool := %s" % (site, "true" if ok else "false"))
+    # literal end action
+    site2 = "grammar.y:function literal end action"
+    m = re.search(r"free_all_local_names\s*\(\s*\)\s*;\s*(?:/\*.*?\*/\s*)?while\s*\(\s*locals_ptr\s*>.*?reactivate_current_locals\s*\(\s*\)\s*;", gy, re.S)
+    if not m:
+        raise X.TieBroken(site2, "cannot locate the action")
+    act2 = re.sub(r"#ifdef NEOLITH_VERIF.*?#endif", "", m.group(0), flags=re.S)
+    FB = r"\$<func_block>2\."
+    fields = {"num_local": "c", "max_num_locals": "m", "locals_off": "lo", "type_off": "to"}
+
+    def restore(name, rx, what):
+        mm = re.search(rx, act2)
+        if not mm or mm.group(1) not in fields:
+            raise X.TieBroken(site2 + " " + what, "`%s` not found" % what)
+        out.append("/-- source: %s: `%s` <- func_block.%s -/\ndef %s (c m lo to : Nat) : Nat := %s" % (site2, what, mm.group(1), name, fields[mm.group(1)]))
+        return mm.start()
+    r = [restore("leaveCur", r"\bcurrent_number_of_locals\s*=\s*" + FB + r"(\w+)\s*;", "current_number_of_locals"),
+         restore("leaveMax", r"\bmax_num_locals\s*=\s*" + FB + r"(\w+)\s*;", "max_num_locals"),
+         restore("leaveNameOff", r"\blocals_ptr\s*=\s*locals\s*\+\s*" + FB + r"(\w+)\s*;", "locals_ptr"),
+         restore("leaveTypeOff", r"\btype_of_locals_ptr\s*=\s*type_of_locals\s*\+\s*" + FB + r"(\w+)\s*;", "type_of_locals_ptr"),
+         restore("leaveRtOff", r"\bruntime_locals_ptr\s*=\s*runtime_locals\s*\+\s*" + FB + r"(\w+)\s*;", "runtime_locals_ptr")]
+    w = re.search(r"while\s*\(\s*locals_ptr\s*>\s*locals\s*\+\s*" + FB + r"(\w+)\s*\+\s*" + FB + r"(\w+)\s*\)", act2)
+    if not w or w.group(1) not in fields or w.group(2) not in fields:
+        raise X.TieBroken(site2 + " release loop", "`while (locals_ptr > locals + off + count)` not found")
+    out.append("/-- source: %s: release loop runs down to locals + func_block.%s + func_block.%s -/\ndef leaveReleaseTo (c m lo to : Nat) : Nat := %s + %s"
+               % (site2, w.group(1), w.group(2), fields[w.group(1)], fields[w.group(2)]))
+    re_ = act2.find("reactivate_current_locals")
+    ok2 = w.start() < min(r) and max(r) < re_ and act2.find("free_all_local_names") < w.start()
+    out.append("/-- source: %s: free_all_local_names, release loop, restores, reactivate - in this order -/\ndef leaveOrderOk : Bool := %s" % (site2, "true" if ok2 else "false"))
+    # compiler.c
+    site3 = "compiler.c:add_local_name"
+    b = fn_body(cc, "add_local_name")
+    if b is None:
+        raise X.TieBroken(site3, "cannot locate add_local_name()")
+    b = re.sub(r"#ifdef NEOLITH_VERIF.*?#endif", "", b, flags=re.S)
+    t = re.search(r"if\s*\(((?:[^()]|\([^()]*\))*)\)\s*\{\s*yyerror\s*\(\s*\"Too many local variables\"", b, re.S)
+    if not t:
+        raise X.TieBroken(site3 + " limit test", "the test in front of \"Too many local variables\" was not found")
+    out.append("/-- source: %s: `if (%s)` refuses the declaration -/\ndef localFullTest (cur max N : Nat) : Bool :=\n  decide (%s)"
+               % (site3, " ".join(t.group(1).split()), c2lean(t.group(1), site3 + " limit test")))
+    i1 = re.search(r"type_of_locals_ptr\s*\[\s*(max_num_locals|current_number_of_locals)\s*\]\s*=", b)
+    i2 = re.search(r"locals_ptr\s*\[\s*(max_num_locals|current_number_of_locals)(\+\+)?\s*\]\s*=\s*ihe", b)
+    if not i1 or not i2:
+        raise X.TieBroken(site3 + " stores", "the two table stores were not found")
+    out.append("/-- source: %s: index of the type store -/\ndef addTypeIdx (cur max : Nat) : Nat := %s" % (site3, IDMAP[i1.group(1)]))
+    out.append("/-- source: %s: index of the name store -/\ndef addNameIdx (cur max : Nat) : Nat := %s" % (site3, IDMAP[i2.group(1)]))
+    site4 = "compiler.c:reallocate_locals"
+    b = fn_body(cc, "reallocate_locals")
+    if b is None:
+        raise X.TieBroken(site4, "cannot locate reallocate_locals()")
+    g1 = re.search(r"\(\s*type_of_locals_size\s*\+=\s*(\w+)\s*\)", b)
+    g2 = re.search(r"\(\s*locals_size\s*\+=\s*(\w+)\s*\)", b)
+    g3 = re.search(r"runtime_locals\s*=\s*RESIZE\s*\(\s*runtime_locals\s*,\s*(\w+)\s*,", b)
+    if not (g1 and g2 and g3):
+        raise X.TieBroken(site4, "the three RESIZE calls were not found")
+    for nm, g in (("reallocGrowType", g1), ("reallocGrowName", g2)):
+        if g.group(1) != "num_local_variables_allowed":
+            raise X.TieBroken(site4, "growth is no longer `+= num_local_variables_allowed`")
+        out.append("/-- source: %s `+= %s` -/\ndef %s (N : Nat) : Nat := N" % (site4, g.group(1), nm))
+    # runtime_locals must get the NEW locals_size: the RESIZE of runtime_locals stands behind the one of locals
+    out.append("/-- source: %s: runtime_locals is resized to `%s` behind the update of locals_size -/\ndef rtFollowsNames : Bool := %s"
+               % (site4, g3.group(1), "true" if (g3.group(1) == "locals_size" and g3.start() > g2.start()) else "false"))
+    # widths of the counters the grammar keeps on bison's stack
+    fb = re.search(r"struct\s*\{([^{}]*)\}\s*func_block\s*;", gy, re.S)
+    if not fb:
+        raise X.TieBroken("grammar.y:func_block", "cannot locate the func_block member of YYSTYPE")
+    wmap = {"char": 127, "signed char": 127, "unsigned char": 255, "short": 32767, "unsigned short": 65535, "int": 2147483647}
+    for field, lean in (("num_local", "fbNumLocalMax"), ("max_num_locals", "fbMaxNumLocalsMax")):
+        mm = re.search(r"((?:unsigned\s+|signed\s+)?(?:char|short|int))\s+%s\s*;" % field, fb.group(1))
+        if not mm or " ".join(mm.group(1).split()) not in wmap:
+            raise X.TieBroken("grammar.y:func_block." + field, "cannot read the type of the field")
+        out.append("/-- source: grammar.y func_block.%s is `%s`: largest value it holds -/\ndef %s : Nat := %d" % (field, mm.group(1), lean, wmap[" ".join(mm.group(1).split())]))
+    rt = re.search(r"\n((?:unsigned\s+|signed\s+)?(?:char|short|int))\s*\*\s*runtime_locals\s*=", cc)
+    if not rt:
+        raise X.TieBroken("compiler.c:runtime_locals", "cannot read the element type of runtime_locals")
+    out.append("/-- source: compiler.c runtime_locals[] elements are `%s`: largest local number they hold -/\ndef rtLocalNumMax : Nat := %d" % (rt.group(1), wmap[" ".join(rt.group(1).split())]))
+    ch = open(os.path.join(repo, "lib/lpc/compiler.h"), errors="replace").read()
+    ym = re.search(r"#define\s+YYMAXDEPTH\s+(\d+)", ch)
+    if not ym:
+        raise X.TieBroken("compiler.h:YYMAXDEPTH", "cannot locate YYMAXDEPTH")
+    out.append("/-- source: compiler.h YYMAXDEPTH -/\ndef yyMaxDepth : Nat := %s" % ym.group(1))
+    return out
+
+
+
 class C02(Prop):
     id = "C02"
     title = "Compiling any source text is safe and leaves the compiler reusable"
-    lean_modules = ["NV.C02.Props", "NV.C02.Witness", "NV.C02.LemmasBuf", "NV.C02.Emit"]
+    lean_modules = ["NV.C02.Props", "NV.C02.Witness", "NV.C02.LemmasBuf", "NV.C02.Emit", "NV.C02.PropsReset", "NV.C02.PropsTie"]
     theorems = ["NV.C02.table_writes_in_bounds", "NV.C02.table_cursors_in_allocation", "NV.C02.mem_block_fits",
                 "NV.C02.include_depth_bounded", "NV.C02.include_stack_empty_after_end", "NV.C02.lexer_flag_clear_after_start", "NV.C02.yytext_in_bounds",
                 "NV.C02.scratch_writes_in_bounds", "NV.C02.scratch_empty_after_destroy", "NV.C02.idents_restored", "NV.C02.locals_reset_after_cleanup",
                 "NV.C02.add_input_writes_in_bounds", "NV.C02.add_input_never_nests", "NV.C02.macro_args_in_bounds",
                 "NV.C02.macro_body_in_bounds", "NV.C02.define_text_in_bounds", "NV.C02.terminator_in_bounds",
-                "NV.C02.include_macro_hops_bounded", "NV.C02.reserved_covers_written", "NV.C02.code_writes_in_block"]
+                "NV.C02.include_macro_hops_bounded", "NV.C02.reserved_covers_written", "NV.C02.code_writes_in_block",
+                "NV.C02.compiler_state_reset", "NV.C02.literal_enter_matches_source", "NV.C02.add_local_matches_source",
+                "NV.C02.literal_leave_matches_source", "NV.C02.counters_fit_their_fields", "NV.C02.default_locals_fit"]
     witness_theorems = []
     # how far a STORE_* macro of lib/port/byte_code.h advances the code pointer = what ins_* writes (MEASURED by
     # running the macro in the probe, not copied)
@@ -97,8 +243,11 @@ class C02(Prop):
                   "SAVEC bound on yytext, identifier sem_value references and bindings in every name space (local / function / global / class) with the "
                   "dirty list of permanent identifiers; the lexer's text buffers (add_input in place / linked buffer, macro argument "
                   "collector, macro body expansion, #define text, text block terminator, #include MACRO hops) and the code "
-                  "emitter's cursor (every ins_* width against the block end and the doubling); for ALL event sequences / character streams every table access "
-                  "is inside its allocation and end-of-compile cleanup restores the initial configuration.  The model is "
+                  "emitter's cursor (every ins_* width against the block end and the doubling); the widths of the counters the grammar keeps on bison's stack; "
+                  "for ALL event sequences / character streams every table access "
+                  "is inside its allocation and the end-of-compile sequence puts EVERY machine of the model back into its initial state (compiler_state_reset).  "
+                  "The grammar's function-literal actions, add_local_name and reallocate_locals are translated from their source text on every run "
+                  "(test expressions, operands, statement order, C types) and tied to the model steps by bridging theorems.  The model is "
                   "tied to the source by regenerated constants and by replaying the event stream emitted by the real "
                   "compiler (hook H3) through the model: every (cursor, size) pair must be reproduced, incl. every add_input call; "
                   "slack constants, guard presence and the reserved / written width of every ins_* are regenerated on every run.  The Lean oracle "
@@ -127,10 +276,10 @@ class C02(Prop):
                    "macro argument / body / #define text / terminator cursors: proved in the model over regenerated guards, on the real driver only the final cursor is observed",
                    "bison parser stacks (YYMAXDEPTH), parse trees, upd_* jump patching and switch tables: sanitizer-observed only; the emitter's ins_* cursor is model + obligation + boundary sweep (no trace point)",
                    "termination of compilation: observed with a 20 s per-case timeout, not proved (only #include MACRO hops are proved bounded)",
-                   "probe-program reusability check is exploration (one fixed probe + adaptive probe of at most 24 declared names), not proof; no single theorem 'state after cleanup = initial state' over all machines at once",
-                   "MaxLocalVariables > 127 (num_local is saved in a `char` by the grammar) is not explored",
+                   "probe-program reusability check is exploration (one fixed probe + adaptive probe of at most 24 declared names); the model-level statement compiler_state_reset is proved, its tie to the driver is the trace replay",
+                   "MaxLocalVariables above 255 (run-time function headers keep num_local in an unsigned char) is outside this check; 128..255 is explored with one configuration (200)",
                    "errors raised by LPC code called during compilation (master log_error etc.) leave compile_file()'s static guard set; not explored",
-                   "size_t / short overflow of counters (sem_value is a short) is not modelled"]
+                   "16-bit sem_value: not proved (analysis in notes: bounded by MaxLocalVariables x YYMAXDEPTH, no wrap at the default 25)"]
 
     # ---- generated Lean beyond plain constants --------------------------------
     def gen_extra(self, ctx, bdir):
@@ -159,6 +308,7 @@ class C02(Prop):
         if not re.search(r"if\s*\(\s*(\+\+incnum\s*==|incnum\s*\+\s*1\s*>=)\s*MAX_INCLUDE_DEPTH\s*\)", lex):
             raise X.TieBroken("lex.c:handle_include depth test", "the include depth test in handle_include was not found")
         out += self.gen_emit()
+        out += gen_grammar(E.REPO)
         out += self.gen_lexbuf(lex)
         return "\n".join(out)
 
@@ -289,8 +439,28 @@ class C02(Prop):
                 out[i - 1], out[i] = out[i], out[i - 1]
         return out
 
+    @staticmethod
+    def conf_n(case):
+        """cases whose first line is `# conf maxlocals N` run in a driver configured with MaxLocalVariables N"""
+        for l in case.lines[:2]:
+            m = re.match(r"#\s*conf\s+maxlocals\s+(\d+)", l)
+            if m:
+                return int(m.group(1))
+        return None
+
     def run_impl(self, ctx, cases):
-        res = E.run_harness(self.exe, self.conf, cases, ctx.rundir, args=["--timeout", "20"])
+        groups = {}
+        for c in cases:
+            groups.setdefault(self.conf_n(c), []).append(c)
+        res = {}
+        for n, cs in groups.items():
+            if n is None:
+                conf, rd = self.conf, ctx.rundir
+            else:
+                rd = os.path.join(ctx.rundir, "n%d" % n)
+                os.makedirs(rd, exist_ok=True)
+                conf = E.make_mudlib(rd, extra_conf="\nMaxLocalVariables\t%d\n" % n)
+            res.update(E.run_harness(self.exe, conf, cs, rd, args=["--timeout", "20"]))
         for k, v in res.items():
             self.impl_cache[k] = self.canon(v)
         return res
@@ -413,6 +583,25 @@ class C02(Prop):
             mk("pad-edge-string-%d" % e, padfill([e], '"%s"' % ("s" * 200), nfull=15))
         for e in range(238, 255):
             mk("pad-edge-ident-%d" % e, padfill([60], "z" * e, nfull=15))
+        # round 2: locals declared in blocks that are closed again (max_num_locals > current_number_of_locals) in front of
+        # nested literals: the type table cursor runs ahead of the name table cursor (seeded C02-5 and its mirror images)
+        def closed(nblock, nlive, body):
+            return "int %s; { int %s; } %s" % (ids("k", nlive), ids("c", nblock), body)
+        for nb, nl in ((23, 1), (24, 1), (12, 12), (1, 23), (0, 24), (20, 5)):
+            for inner in (N - 1, N, N + 1):
+                lit2 = "function(int z) { int %s; return z; }" % ids("w", inner - 1)
+                lit1 = "function(int y) { %s }" % closed(nb, nl, "return %s;" % lit2).replace("k", "p").replace("c", "q")
+                mk("closed-blocks-%d-%d-inner-%d" % (nb, nl, inner), "mixed f() { %s }" % closed(nb, nl, "return %s;" % lit1))
+        mk("closed-blocks-three-deep", "mixed f() { %s }" % closed(23, 1, "return function() { %s };" % closed(23, 1, "return function() { %s };" % closed(23, 1, "return function() { int %s; return 1; };" % ids("w", 25)).replace("k", "m").replace("c", "n")).replace("k", "p").replace("c", "q")))
+        mk("closed-blocks-args", "mixed f(%s) { { int %s; } return function(%s) { { int %s; } return function(%s) { return 1; }; }; }"
+           % (args("a", 2), ids("c", 22), args("b", 2), ids("d", 22), args("e", 25)))
+        # round 2: MaxLocalVariables configured above 127 (the counters kept on bison's stack / in runtime_locals[])
+        for n in (126, 127, 128, 129, 130, 199, 200, 201, 255, 256, 300):
+            B.append(E.Case("b-n200-locals-%d-literal" % n, ["# conf maxlocals 200"] + mkcase("x", "int f() { int %s; function g; g = function(int a) { int b; return a + b; }; return o%d; }" % (ids("o", n), min(n, 200) - 1)).lines, {"origin": "boundary", "kind": "n200"}))
+        B.append(E.Case("b-n200-nested", ["# conf maxlocals 200"] + mkcase("x", "mixed f() { int %s; return function(int a) { int %s; return function(int b) { int %s; return b + r149 + q139 + o129; }; }; }" % (ids("o", 130), ids("q", 140), ids("r", 150))).lines, {"origin": "boundary", "kind": "n200"}))
+        B.append(E.Case("b-n200-block-150", ["# conf maxlocals 200"] + mkcase("x", "void f() { int q; { int %s; } q = function() { int %s; return 1; }; }" % (ids("a", 150), ids("b", 190))).lines, {"origin": "boundary", "kind": "n200"}))
+        B.append(E.Case("b-n200-args-180", ["# conf maxlocals 200"] + mkcase("x", "int f(%s) { return function(%s) { return y179; }; }" % (args("x", 180), args("y", 180))).lines, {"origin": "boundary", "kind": "n200"}))
+        B.append(E.Case("b-n200-abandoned", ["# conf maxlocals 200"] + mkcase("x", "void f() { int %s; function g; g = function(int b) { int %s; return function(int c, + ) { return 1; }; }; o0 = 1; }\nint g2(int users) { return users; }" % (ids("o", 140), ids("p", 135))).lines, {"origin": "boundary", "kind": "n200"}))
         # extend round: the text buffers of the preprocessor (F22 - F27) at their edges
         mk("include-macro-self", "#define X X\n#include X\nint a;\n")
         mk("include-macro-cycle", "#define A B\n#define B C\n#define C A\n#include A\nint a;\n")
